@@ -353,13 +353,22 @@ Definition finish_edge (s : sstate) (e : edge) (dirty : bool) : sstate :=
 Definition sv := (sstate * list node)%type.   (* state, pending validation nodes *)
 
 (* the part of RecomputeNodeDirty after the first RecomputeEdgesInputsDirty call;
-   [visit] is the recursive call with the stack of this frame *)
-Definition after_inputs (visit : node -> sv -> sres sv) (e : edge) (was_loaded : bool)
+   [visit] is the recursive call with the stack of this frame.
+   [was_loaded] = deps_loaded_ at entry: the edge is being visited a second time (only possible
+   after Plan::UnmarkDependents, i.e. dyndep; never in a fresh scan).  Then the deps are not
+   looked at again and the verdict of the first visit is kept: [rev_missing] = deps_loaded_ &&
+   deps_missing_ at entry, [rev_dirty] = deps_loaded_ && some output dirty at entry; the final
+   "if (revisit_deps_missing) deps_missing_ = true; if (revisit_dirty || revisit_deps_missing)
+   dirty = true" is a no-op on a first visit (both are false), so it only appears in that branch. *)
+Definition after_inputs (visit : node -> sv -> sres sv) (e : edge)
+           (was_loaded rev_missing rev_dirty : bool)
            (s3 : sstate) (vs : list node) : sres sv :=
   let ins0 := es_ins (st_edge s3 e) in
   let '(s4, mri, dirty) := eval_inputs e ins0 0 s3 None false in
   let '(dirty1, s5) := if dirty then (true, s4) else outputs_dirty_all e (edge_outs e) mri s4 in
-  if was_loaded then SOk (finish_edge s5 e dirty1, vs)
+  if was_loaded then
+    SOk (finish_edge (if rev_missing then set_deps_missing s5 e true else s5) e
+                     (dirty1 || rev_dirty || rev_missing), vs)
   else if dirty1 then
     if load_deps_try s5 e then SOk (finish_edge s5 e true, vs)
     else SOk (finish_edge (set_deps_missing s5 e true) e true, vs)
@@ -400,12 +409,14 @@ Fixpoint recompute_node_dirty (fuel : nat) (stack : list node) (n : node) (x : s
       | VisitNone =>
         let vs1 := vs ++ ei_vals (g_edge g e) in
         let was_loaded := es_deps_loaded (st_edge s e) in
+        let rev_missing := was_loaded && es_deps_missing (st_edge s e) in
+        let rev_dirty := was_loaded && existsb (fun o => ns_dirty (st_node s o)) (edge_outs e) in
         let s1 := enter_edge s e in
         let stack1 := stack ++ [n] in
         let s2 := stat_outputs s1 (edge_outs e) in
         let visit := recompute_node_dirty fuel' stack1 in
         match visit_all visit (es_ins (st_edge s2 e)) (s2, vs1) with
-        | SOk (s3, vs3) => after_inputs visit e was_loaded s3 vs3
+        | SOk (s3, vs3) => after_inputs visit e was_loaded rev_missing rev_dirty s3 vs3
         | err => err
         end
       end
